@@ -29,6 +29,10 @@ META = {
     "functions": ["Field._get_default_gfa_tag_datatype", "string/char/float/json/byte_array/numeric_array encode+decode", "FieldData.set/set_datatype", "Writer.field_to_s"],
     "bounds": "catalogue of 38 Python values (strings incl. tab/newline/non-printable/empty, characters, finite and non-finite floats, nested JSON lists/dicts, JSON containing tabs/newlines, int and float lists, empty list, ByteArray of 1-2 bytes, NumericArray, mixed list) x vlevel 0..3 x {new tag with default datatype, tag with declared datatype}",
     "timeout": {"quick": 300, "thorough": 900}, "parts": {"quick": 8, "thorough": 8}},
+  "h_redefine": {"kind": "L",
+    "functions": ["FieldData.set/delete/get_datatype/set_datatype", "Line._field_or_default_datatype", "Writer.field_to_s", "Line.__init__"],
+    "bounds": "a tag is set to one of 6 representative values (Z, f, i, J, B, H), removed with delete() and defined again with ANY representable value of the catalogue (38 values), on an S, H or L line, vlevel 0..3: the new tag gets the default datatype of its new value, is written grammatically and reads back with the same datatype and an equal value",
+    "timeout": {"quick": 300, "thorough": 600}, "parts": {"quick": 8, "thorough": 8}},
   "h_float_text": {"kind": "L",
     "functions": ["gfapy.field.float.decode/unsafe_decode/validate_encoded/validate_decoded/encode", "Line.__init__/get/field_to_s", "Writer"],
     "bounds": "f tags given as text '<m>e<x>' with mantissa from {1, -1, 1.5, 9.9} and exponent from {0, 37, 38, 39, 307, 308, 309, 400, 999, -400}, on an S line read at vlevel 0..3: either the value is read, written as a grammatical f field and read back equal, or the line/field access raises a gfapy error; a non-finite value is never stored or written",
@@ -289,3 +293,33 @@ def h_float_text(mi: int, xi: int, vl: int) -> bool:
     if not m or not G.accepts("f", m.group(1)): return False
     back = gfapy.Line("S\ta\t*\t" + w, vlevel=level)
     return back.get("xx") == v
+
+
+FIRST = ["q", 1.5, 7, {"a": 1}, [1, 2], gfapy.ByteArray([1])]
+HOSTS = ["S\ta\t*", "H\tVN:Z:1.0", "L\ta\t+\tb\t-\t*"]
+
+def h_redefine(fi: int, vi: int, hi: int, vl: int) -> bool:
+  """
+  pre: 0 <= fi < 6 and 0 <= vi < NV and 0 <= hi < 3 and 0 <= vl <= 3
+  pre: (fi + vi) % NPART == PART
+  post: _ == True
+  """
+  vp.enter("rd")
+  first = FIRST[vp.concretize(fi, 0, 5)]
+  v, dt = VALUES[vp.concretize(vi, 0, NV - 1)]
+  if dt is None: return True
+  level = vp.concretize(vl, 0, 3)
+  line = gfapy.Line(HOSTS[vp.concretize(hi, 0, 2)], vlevel=level)
+  vp.reached("rd", fi, vi, hi, level)
+  line.set("xx", first)
+  line.delete("xx")          # (set(tag, None) keeps a declared datatype, like set_datatype before set: not claimed)
+  if "xx" in line.tagnames: return False
+  line.set("xx", v)                      # a valid assignment of a new tag is never rejected
+  if line.get_datatype("xx") != dt: return False
+  w = line.field_to_s("xx", True)
+  with NoTracing():
+    m = re.fullmatch(r"xx:([AifZJHB]):(.+)", w, re.S)
+    if not m or m.group(1) != dt or not G.accepts(dt, m.group(2)): return False
+    back = gfapy.Line("S\ta\t*\t" + w, vlevel=level)
+    if back.get_datatype("xx") != dt: return False
+    return _eq(back.get("xx"), v)
